@@ -56,7 +56,8 @@ func (in *interp) clockNow() value {
 	if in.fixedClock != nil {
 		// the monotonic reading follows the fixed wall clock, so that a harness that moves the fixed
 		// clock sees time.Since/Sub advance (same formula in zzvrf/clock_native.go)
-		return in.mkTime(uint64(*in.fixedClock-ClockLo+1), *in.fixedClock, in.locSentinel())
+		mono := in.conv(types.Typ[types.Uint64], types.Typ[types.Int64], in.binop(token.ADD, nil, in.binop(token.SUB, nil, in.fixedClock, int64(ClockLo)), int64(1)))
+		return in.mkTime(mono, in.fixedClock, in.locSentinel())
 	}
 	k := in.clockN
 	in.clockN++
